@@ -23,5 +23,13 @@ extern "C" {
 int nondet_int(void); unsigned nondet_uint(void); long nondet_long(void); unsigned long nondet_ulong(void);
 double nondet_double(void); unsigned char nondet_uchar(void); signed char nondet_schar(void);
 }
+/* <cmath> classification functions a maintenance edit of the bodies under contract is likely to use (IEEE semantics, CBMC built-ins) */
+namespace std {
+inline bool isnan(double x) { return x != x; }
+inline bool isinf(double x) { return __CPROVER_isinfd(x); }
+inline bool isfinite(double x) { return __CPROVER_isfinited(x); }
+inline bool signbit(double x) { return __CPROVER_signd(x); }
+inline double fabs(double x) { return __CPROVER_fabs(x); }
+}
 inline bool nondet_boolean() { return nondet_uchar() != 0; }   /* a raw nondet C++ bool may be a non-0/1 byte */
 #endif
